@@ -90,8 +90,11 @@ def expected(run):
         first, tf = None, float("inf")
     events = [(tf, 2, first)]
     events.append((T, 1, ("raise", "TimeoutError")))
+    if tau == "startup":
+        tau = -1.0      # requested while the reactor starts up, before the function has been called
     if tau is not None:
         events.append((tau, 3, ("raise", "NoResultError")))
+    expected.tf = tf
     if tf == 0.0:
         return first, 0.0
     events.sort(key=lambda e: (e[0], e[1]))
@@ -109,7 +112,13 @@ def x_history(ctx, case):
     try:
         signal.signal(signal.SIGINT, pre)
         signal.signal(signal.SIGTERM, pre)
-        spinner = Spinner(reactor)
+        if case.get("iterating"):
+            class IteratingSpinner(Spinner):
+                """What AsynchronousDeferredRunTestForBrokenTwisted uses: _clean() turns the reactor."""
+                _OBLIGATORY_REACTOR_ITERATIONS = 2
+            spinner = IteratingSpinner(reactor)
+        else:
+            spinner = Spinner(reactor)
         junk_pending = False
         nontrivial = False
         for idx, run in enumerate(case["runs"]):
@@ -135,8 +144,13 @@ def x_history(ctx, case):
                     reactor.callLater(t, lambda: None)
                 for n in range(run.get("selectables", 0)):
                     reactor.addReader(Sel(n))
-                if run.get("stop_at") is not None:
-                    reactor.callLater(run["stop_at"], lambda: reactor.stop())
+                if isinstance(run.get("stop_at"), (int, float)):
+                    def stopper(run=run):
+                        # slow synchronous work (the clock moves on while nothing else gets to run),
+                        # then the stop request
+                        reactor.rightNow += run.get("slow_stop", 0)
+                        reactor.stop()
+                    reactor.callLater(run["stop_at"], stopper)
                 if run.get("reenter"):
                     for attempt in range(2):
                         try:
@@ -166,6 +180,9 @@ def x_history(ctx, case):
                 return d
 
             got = None
+            if run.get("stop_at") == "startup" and not junk_pending:
+                # a start-up trigger registered earlier that looks reactor.stop up when it fires
+                reactor.callWhenRunning(lambda: reactor.stop())
             try:
                 got = ("value", spinner.run(run["timeout"], function))
             except BaseException as e:  # noqa - that is the observation
@@ -204,14 +221,20 @@ def x_history(ctx, case):
                 ctx.check(reentry.get("errors") == ["ReentryError", "ReentryError"] and "ran" not in reentry,
                           "reentry.refused", lambda: {"run": idx, "reentry": reentry, **detail()})
             # ---- junk accounting -------------------------------------------------------------------
-            leftovers = sum(1 for t in run.get("junk", []) if t > t_end) + run.get("selectables", 0)
-            if want == ("raise", "NoResultError"):
-                leftovers += 1  # the timeout call itself is still pending
-            if f["kind"] in ("fire_at", "fail_at") and f["t"] > t_end:
+            horizon = t_end
+            stopped = want == ("raise", "NoResultError")
+            if stopped and case.get("iterating") and run.get("slow_stop"):
+                horizon = t_end + run["slow_stop"]   # _clean()'s reactor iterations run what is overdue by then
+            leftovers = sum(1 for t in run.get("junk", []) if t > horizon) + run.get("selectables", 0)
+            if stopped and run["timeout"] > horizon and not (horizon > t_end and expected.tf <= horizon):
+                # the timeout call itself is still pending (unless the function's Deferred completed
+                # during the clean-up iterations, which cancels it)
+                leftovers += 1
+            if f["kind"] in ("fire_at", "fail_at") and f["t"] > horizon:
                 leftovers += 1
             if f["kind"] == "chain":
-                leftovers += (1 if f["t"] > t_end else 0) + (1 if f["t"] + f["t2"] > t_end else 0)
-            if run.get("stop_at") is not None and run["stop_at"] > t_end:
+                leftovers += (1 if f["t"] > horizon else 0) + (1 if f["t"] + f["t2"] > horizon else 0)
+            if isinstance(run.get("stop_at"), (int, float)) and run["stop_at"] > t_end:
                 leftovers += 1
             junk = spinner.get_junk()
             ctx.check(bool(junk) == bool(leftovers), "junk.reported-and-refused-until-cleared",
@@ -311,7 +334,7 @@ def grid_runs():
     kinds.append({"kind": "fail_at", "t": 2.0, "exc": "KeyError"})  # exactly at the timeout 2.0
     for f in kinds:
         for T in (1.0, 2.0):
-            for tau in (None, 0.25, 0.75, 1.25, 1.75, 2.25, 3.0):
+            for tau in (None, 0.25, 0.75, 1.25, 1.75, 2.25, 3.0, "startup"):
                 if tau is not None and f["kind"] in ("fire_at", "fail_at") and f["t"] in (1.0, 2.0) and tau in (T,):
                     continue
                 yield {"f": f, "timeout": T, "stop_at": tau}
@@ -333,7 +356,7 @@ def run(ctx):
             run1 = dict(base, **v)
             ctx.execute("history", {"runs": [run1], "handlers": ["default_int", "py", "ign", "dfl"][n % 4]},
                         sample=(n % 211 == 0))
-    ctx.note_space("function kind (14) x timeout (2) x stop instant (7) x 6 variants (junk, selectables, handler "
+    ctx.note_space("function kind (14) x timeout (2) x stop instant (8, incl. during reactor start-up) x 6 variants (junk, selectables, handler "
                    "re-installation, re-entry, pre-patched reactor.stop), fresh Spinner", n, not ctx.quick)
     # reuse histories: run A, (clear junk or not), run B
     firsts = [r for r in grid_runs()][::5]
@@ -349,6 +372,24 @@ def run(ctx):
                                                  dict(b, clear_junk=True, handlers="ign")]},
                             sample=(n % 97 == 0))
     ctx.note_space("two/three runs on one Spinner: every 5th grid run followed by 3 second runs x clear_junk on/off", n)
+    # a Spinner whose _clean() iterates the reactor, interrupted after slow synchronous work (so that
+    # overdue calls - the timeout, the function's own Deferred - run during the clean-up), then reused
+    n = 0
+    slow_fs = [{"kind": "never"}, {"kind": "fire_at", "t": 1.5, "v": "late"}, {"kind": "fail_at", "t": 0.5, "exc": "KeyError"},
+               {"kind": "fail_at", "t": 1.5, "exc": "ValueError"}, {"kind": "chain", "t": 0.5, "t2": 1.5, "v": [2]}]
+    for f in slow_fs:
+        for tau, slow in ((0.25, 0.0), (0.25, 1.0), (0.25, 5.0), (0.75, 0.5), (0.75, 5.0)):
+            for iterating in (True, False):
+                for b in ({"f": {"kind": "ret", "v": 42}, "timeout": 1.0},
+                          {"f": {"kind": "fire_at", "t": 0.5, "v": 43}, "timeout": 1.0}):
+                    if not ctx.mine():
+                        continue
+                    n += 1
+                    ctx.execute("history", {"iterating": iterating,
+                                            "runs": [{"f": f, "timeout": 1.0, "stop_at": tau, "slow_stop": slow},
+                                                     dict(b, clear_junk=True), dict(b, clear_junk=True)]})
+    ctx.note_space("iterating / plain Spinner interrupted after slow synchronous work (5 functions x 5 (instant, "
+                   "duration) pairs), then reused twice", n)
     ctx.notes["random_cases"] = True
     grid = list(grid_runs())
     for i in range(ctx.scale(8000, 300000)):
@@ -362,7 +403,10 @@ def run(ctx):
                 r["clear_junk"] = True
             if rng.random() < 0.4:
                 r["handlers"] = rng.choice(list(HANDLERS))
+            if isinstance(r.get("stop_at"), float) and rng.random() < 0.3:
+                r["slow_stop"] = rng.choice([0.5, 1.0, 5.0])
             runs.append(r)
-        ctx.execute("history", {"runs": runs, "handlers": rng.choice(list(HANDLERS))})
+        ctx.execute("history", {"runs": runs, "handlers": rng.choice(list(HANDLERS)),
+                                "iterating": rng.random() < 0.3})
     if ctx.shard == 0:
         ctx.execute("real", {})
